@@ -15,7 +15,10 @@ grep -E "^(VIOLATION|KNOWN-FINDING|UNDECIDED|UNRESOLVED|FLOOR)" /tmp/cometlint.$
 grep -E "^(VIOLATION|KNOWN-FINDING|UNDECIDED|UNRESOLVED|FLOOR)" /tmp/cometlint.$$.tags | sed 's/^/[tags=verif] /'
 rm -f /tmp/cometlint.$$.386 /tmp/cometlint.$$.tags
 if [ -x ./selftest.sh ]; then
-  ./selftest.sh "$PROP" || rc=$?
+  ./selftest.sh "$PROP" > /tmp/selftest.$$ 2>&1 || rc=$?
+  cat /tmp/selftest.$$
+  export VERIF_SELFTEST_SUMMARY="$(tail -1 /tmp/selftest.$$)"
+  rm -f /tmp/selftest.$$
 fi
 ./bin/cometlint -prop "$PROP" -tier thorough -repo "$REPO" -verif "$(pwd)" || rc=1
 exit $rc
